@@ -55,3 +55,27 @@ func VerifBuildAckRanges(entries []VerifAckEntry, gaps []VerifAckRange) ([]Verif
 	}
 	return res, hasRenew
 }
+
+// VerifSetProduceSequence sets the idempotent sequence state (seq and
+// batch0Seq) of one partition's record buffer, standing for a producer that
+// has already produced that many records to the partition under its current
+// epoch (so no sequence reset is pending either). It refuses (false) while
+// the buffer holds records or is unknown.
+func VerifSetProduceSequence(cl *Client, topic string, partition, seq int32) bool {
+	parts, ok := cl.producer.topics.load()[topic]
+	if !ok {
+		return false
+	}
+	ps := parts.load().partitions
+	if partition < 0 || int(partition) >= len(ps) {
+		return false
+	}
+	rb := ps[partition].records
+	rb.mu.Lock()
+	defer rb.mu.Unlock()
+	if len(rb.batches) != 0 {
+		return false
+	}
+	rb.seq, rb.batch0Seq, rb.needSeqReset = seq, seq, false
+	return true
+}
